@@ -529,6 +529,7 @@ func checkC13(c *Ctx) {
 	r.floor("PO/upward-reslices", 1, "compress, snappy branch")
 	checkGL(c)
 	checkND(c)
+	checkCallerSlices(c)
 	r.assume("bytebufferpool.Pool is concurrency-safe (sync.Pool + atomics); Put resets the length to 0 so stale bytes are only reachable by reslicing upward")
 	r.assume("thrift serialisation, snappy and gzip (zero Header) are deterministic and keep no cross-instance state")
 	r.assume("io.Writer contract: Write neither retains nor modifies p")
@@ -895,4 +896,93 @@ func ndScanFn(u *Universe, f *ssa.Function) []string {
 		}
 	}
 	return found
+}
+
+// --- CS: caller-owned slices ---
+
+// checkCallerSlices: a slice handed in through the API (an option list, …) still belongs to the caller, who may hand the
+// same slice — with spare capacity — to another instance. Appending to it writes into that shared backing array.
+// Appending a value that is the same for every instance (a named function, a constant) is harmless; appending a value
+// computed from this instance's state lets the next instance built from the same slice overwrite it (and vice versa).
+func checkCallerSlices(c *Ctx) {
+	r, u := c.R, c.U
+	owned := map[*ssa.Parameter]bool{}
+	var work []*ssa.Parameter
+	for _, f := range apiRoots(c) {
+		for _, p := range f.Params {
+			if _, ok := p.Type().Underlying().(*types.Slice); ok {
+				owned[p] = true
+				work = append(work, p)
+			}
+		}
+	}
+	// the caller's slice handed on unchanged to a callee is still the caller's
+	for len(work) > 0 {
+		p := work[0]
+		work = work[1:]
+		if p.Referrers() == nil {
+			continue
+		}
+		for _, ref := range *p.Referrers() {
+			call, ok := ref.(ssa.CallInstruction)
+			if !ok {
+				continue
+			}
+			for _, cal := range u.Callees(call) {
+				if !u.InUniverse(cal) || cal.Blocks == nil {
+					continue
+				}
+				for i, a := range callArgs(call.Common()) {
+					if a == ssa.Value(p) && i < len(cal.Params) && !owned[cal.Params[i]] {
+						owned[cal.Params[i]] = true
+						work = append(work, cal.Params[i])
+					}
+				}
+			}
+		}
+	}
+	r.count("CS/caller-slices", len(owned))
+	n := 0
+	for p := range owned {
+		if p.Referrers() == nil {
+			continue
+		}
+		for _, ref := range *p.Referrers() {
+			call, ok := ref.(*ssa.Call)
+			if !ok {
+				continue
+			}
+			bi, ok := call.Call.Value.(*ssa.Builtin)
+			if !ok || bi.Name() != "append" || call.Call.Args[0] != ssa.Value(p) {
+				continue
+			}
+			n++
+			key := fmt.Sprintf("%s append to %s", u.FnName(p.Parent()), p.Name())
+			var dep []string
+			for _, v := range appendedValues(call) {
+				x := v
+				for {
+					if mi, ok := x.(*ssa.MakeInterface); ok {
+						x = mi.X
+					} else if ct, ok := x.(*ssa.ChangeType); ok {
+						x = ct.X
+					} else {
+						break
+					}
+				}
+				switch x.(type) {
+				case *ssa.Const, *ssa.Function, *ssa.Global:
+				default:
+					dep = append(dep, symExpr(x, 0))
+				}
+			}
+			if len(dep) > 0 {
+				r.bad("CS", key, u.Pos(call.Pos()), "a value computed for this instance ("+strings.Join(dep, ", ")+") is appended to the caller's slice "+p.Name()+": when that slice has spare capacity the value lands in the caller's backing array, where another instance built from the same slice overwrites it — the two instances then share state")
+			} else {
+				r.ok("CS", key, u.Pos(call.Pos()), "only instance-independent values (named functions, constants) are appended to the caller's slice")
+			}
+		}
+	}
+	r.count("CS/appends", n)
+	r.floor("CS/caller-slices", len(u.TC), "the option lists of NewParquetWriter / NewParquetReader")
 }
